@@ -48,12 +48,29 @@ class TlcResult:
     def tuples(self, tag):
         """All PrintT(<<tag, ...>>) tuples whose elements are strings / integers / booleans."""
         res = []
-        pat = '<<"%s"' % tag
-        for line in self.out.splitlines():
-            i = line.find(pat)
-            if i < 0:
-                continue
-            res.append(parse_tuple(line[i:]))
+        text = self.out
+        for m in re.finditer(r'<<\s*"%s"' % re.escape(tag), text):
+            i = m.start()
+            depth, j, instr = 0, i, False
+            while j < len(text):                      # TLC wraps long tuples over several lines: match brackets
+                c = text[j]
+                if instr:
+                    if c == "\\":
+                        j += 1
+                    elif c == '"':
+                        instr = False
+                elif c == '"':
+                    instr = True
+                elif text.startswith("<<", j):
+                    depth += 1
+                    j += 1
+                elif text.startswith(">>", j):
+                    depth -= 1
+                    j += 1
+                    if depth == 0:
+                        break
+                j += 1
+            res.append(parse_tuple(" ".join(text[i:j + 1].split())))
         return res
 
     def coverage_zero(self):
